@@ -240,6 +240,7 @@ func (r *Run) execInstr(fr *Frame, st *State, reach Term, ins ssa.Instruction, o
 		out.isIf = true
 		if !out.cond.IsTrue() && !out.cond.IsFalse() {
 			r.conds = append(r.conds, out.cond)
+			r.condReach = append(r.condReach, r.ctx.Define("cr", reach))
 			r.condMark = append(r.condMark, r.ctx.Mark())
 			r.condPos = append(r.condPos, r.posString(ins.Cond.Pos())+" "+trunc(ins.Cond.String(), 40))
 		}
@@ -249,7 +250,7 @@ func (r *Run) execInstr(fr *Frame, st *State, reach Term, ins ssa.Instruction, o
 		for _, x := range ins.Results {
 			vals = append(vals, r.operand(fr, st, x))
 		}
-		fr.rets = append(fr.rets, retPoint{reach: reach, st: st, vals: vals})
+		fr.rets = append(fr.rets, retPoint{reach: reach, st: st, vals: vals, pos: ins.Pos()})
 		return reach, true
 	case *ssa.Panic:
 		r.safety(fr, "panic", reach, tFalse, ins.Pos(), "explicit panic reachable")
